@@ -33,24 +33,45 @@ def phi(a, t):
     v = np.ones(a.shape[0])
     for c in t: v = v * (a @ phi(a, c))
     return v
+import math
 bad = []
-for m in rk.method_list:
-    r = rk.RungeKutta(m); a, b, c = r.tableau
-    for row, p in zip(np.atleast_2d(b), r.order):
+def check(r, m, label):
+    a, b, c = r.tableau
+    b2 = np.atleast_2d(b)
+    if len(b2) != len(r.order): bad.append((m, label, "rows vs advertised orders", (len(b2), tuple(r.order))))
+    for row, p in zip(b2, r.order):
         for n in range(1, p + 1):
             for t in trees(n):
                 res = float(row @ phi(a, t)) * gamma(t) - 1.0
-                if abs(res) > 1e-12: bad.append((m, p, t, res))
-    if not np.allclose(a.sum(axis=1), c, atol=1e-14): bad.append((m, "row sums", None, 0))
+                if abs(res) > 1e-12: bad.append((m, label, p, t, res))
+    if not np.allclose(a.sum(axis=1), c, atol=1e-14): bad.append((m, label, "row sums", None, 0))
     ti = np.atleast_2d(r.runge_kutta_ti_coefficient())
-    import math
     for row, p in zip(ti, r.order):
         for k in range(p + 1):
-            if abs(row[k] * math.factorial(k) - 1) > 1e-12: bad.append((m, "ti", k, float(row[k])))
-for o in range(0, 31):
-    cf = rk.TaylorExpansion(o).coeff
-    import math
-    if len(cf) != o + 1 or any(abs(cf[k] * math.factorial(k) - 1) > 1e-14 for k in range(o + 1)): bad.append(("Taylor", o, None, 0))
+            if abs(row[k] * math.factorial(k) - 1) > 1e-12: bad.append((m, label, "ti", k, float(row[k])))
+for m in rk.method_list:
+    check(rk.RungeKutta(m), m, "RungeKutta")
+# the tables as the evolution code receives them: through EvolveConfig (every method, adaptive on/off) and its copy()
+from renormalizer.utils import EvolveConfig, EvolveMethod
+for m in rk.method_list:
+    ref = rk.RungeKutta(m)
+    for adaptive in (False, True):
+        for meth in list(EvolveMethod):
+            for to in (None, 3, 7):
+                cfg0 = EvolveConfig(method=meth, adaptive=adaptive, rk_solver=m, taylor_order=to)
+                for label, cfg in (("EvolveConfig(%s, adaptive=%s)" % (meth.name, adaptive), cfg0), ("EvolveConfig.copy()", cfg0.copy())):
+                    r = cfg.rk_config
+                    same = r.method == m and r.stage == ref.stage and tuple(r.order) == tuple(ref.order) and len(r.tableau) == 3 and \
+                        all(np.shape(x) == np.shape(y) and np.array_equal(x, y) for x, y in zip(r.tableau, ref.tableau))
+                    if not same:
+                        bad.append((m, label, "tables handed to the propagators differ from RungeKutta(%r)" % m, tuple(r.order), [np.shape(x) for x in r.tableau]))
+                        check(r, m, label)
+                    want = to if to is not None else cfg.taylor_config.order   # the default order is not part of the property
+                    cf = cfg.taylor_config.coeff
+                    if cfg.taylor_config.order != want or len(cf) != want + 1 or any(abs(cf[k] * math.factorial(k) - 1) > 1e-14 for k in range(want + 1)):
+                        bad.append((m, label, "Taylor table", want, [float(x) for x in cf]))
+    check(EvolveConfig(rk_solver=m).rk_config, m, "EvolveConfig default")
+    check(EvolveConfig(rk_solver=m, adaptive=True).rk_config, m, "EvolveConfig adaptive")
 print("failing order conditions:", bad[:5])
 sys.exit(1 if bad else 0)
 '''
